@@ -115,6 +115,27 @@ pub fn gen_c18(tier: &str, seed: u64, out: &str) -> Value {
             refl_events.push(json!({"op": "reflected", "origin": origin, "idx": (*slot - 120) % 10, "match_face": m, "dev_ppm": dev}));
         }
     }
+    // (v) sector arithmetic: which quintant / memo triangle / reflected region a direction belongs to
+    let mut n_sector = 0u64;
+    for k in -40..40i64 { // to_polar yields gamma in (-pi, pi] = (-80, 80] half-units
+        let g = 2 * k + 1; // odd half-units: never on a sector boundary
+        let gamma = g as f64 * (sector / 16.0);
+        for beyond in [false, true] {
+            let seg = gamma / (2.0 * sector);
+            let beta = (seg - seg.round()) * 2.0 * sector;
+            let rho = if beyond { 0.64 } else { 0.6 } / beta.cos();
+            let quintant = a5::core::tiling::get_quintant_polar(a5::coordinate_systems::Polar::new(rho, a5::coordinate_systems::Radians::new_unchecked(gamma)));
+            let mut fresh = DodecahedronProjection::new().unwrap();
+            let origin = (k.rem_euclid(12)) as u8;
+            fresh.inverse(Face::new(rho * gamma.cos(), rho * gamma.sin()), origin).unwrap();
+            let v = fresh.verif_cache_view();
+            let sph: Vec<usize> = v.spherical_slots.iter().enumerate().filter(|x| *x.1).map(|x| x.0).collect();
+            let (idx, refl) = if sph.len() == 1 { ((sph[0] % 120) % 10, sph[0] >= 120) } else { (99, false) };
+            t.emit(json!({"op": "sector", "g": g, "quintant": quintant, "idx": idx, "refl": refl, "beyond": beyond}));
+            n_sector += 1;
+        }
+    }
+    t.cut();
     t.emit(json!({"op": "reset"}));
     t.emit(json!({"op": "framecells", "cells": cells}));
     t.emit(json!({"op": "frameend", "nverts": verts.len(), "ntris": tris.iter().filter(|x| x.0 < 120).count()}));
@@ -122,7 +143,7 @@ pub fn gen_c18(tier: &str, seed: u64, out: &str) -> Value {
     t.cut();
     t.finish();
     json!({"files": t.files, "events": t.events, "relabel_faces": n_rel, "face_pairs": n_pairs, "nearest_points": n_near, "nearest_points_within_1e-6_of_a_seam": n_tight,
-           "frame_triangles": tris.len(), "samples": [json!({"face_centre_0_colat_deg": (std::f64::consts::FRAC_PI_2 - cs[0].beta) * RAD2DEG})]})
+           "frame_triangles": tris.len(), "sector_probes": n_sector, "samples": [json!({"face_centre_0_colat_deg": (std::f64::consts::FRAC_PI_2 - cs[0].beta) * RAD2DEG})]})
 }
 
 // ---------------------------------------------------------------- C06
